@@ -8,10 +8,18 @@
     [None] and the lemma carries the condition as a hypothesis - the model's total functions (Coq's x / 0 = 0) are
     not equated with numpy's nan.
 
-    The proofs depend on what the python computes, not on how it is written: [src_eq] unfolds both sides, brings the
-    arguments of [norm], [sqrt], [acos], [tan] ... that are equal as polynomials / fractions to one form, splits
-    on the decisions in the order met (no backtracking: a real difference fails fast), closes impossible branches
-    with the hypotheses and the remaining [Some a = Some b] by [ring] / [field] coordinate by coordinate. *)
+    The proofs depend on what the python computes, not on how it is written.  [src_eq]: unfold both sides; split on
+    the decisions in the order met (no backtracking); a branch in which the source has no value ([None]: a guard
+    failed) or source and model took different ways is refuted from the hypotheses ([contra]: [lra]; a zero norm
+    against a non-zero vector; the same comparison written differently); at a leaf [Some a = Some b] the values of
+    [norm], [sqrt], [acos], [tan], [Rabs], [Rmax] ... whose arguments are equal (or opposite, for [norm] / [Rabs])
+    are brought to one form ([unify_atoms]), then [a = b] by [peel]: syntactically, or argument by argument, or - a
+    node as a whole - by [ring] / [field] coordinate by coordinate, with the function values and the vector
+    sub-expressions both sides share replaced by variables first.  Everything is time-limited: a real difference
+    fails in seconds to a minute with "the translated source differs from the model".
+    Silent for (self-test, notes/C08.md): commuted dot / cross-of-dot arguments, (a + b) / 2 vs 0.5 * (a + b), extra
+    locals, norm(a - b) vs norm(b - a), unit_vector written out by hand.  Unused lemma names of Gen/C08/Source.v are
+    never mentioned here ([unfold_src] is generated with the file). *)
 From Coq Require Import Reals Lra Psatz List Bool.
 From CB Require Import Base.Vec3 Model.C08_Arcs Proofs.C08_Theta Proofs.C08_Chord Proofs.C08_ThreePoint Proofs.C08_Circle.
 From CB Require Import Gen.C08.Source.
@@ -23,6 +31,9 @@ Lemma norm_eq_0 v : norm v = 0 -> v = vzero.
 Proof.
   intros H. apply norm2_zero. rewrite <- norm_sq, H. ring.
 Qed.
+
+Lemma norm_vopp v : norm (vopp v) = norm v.
+Proof. unfold norm. f_equal. vec_simpl. ring. Qed.
 
 Lemma norm_neq_0 v : v <> vzero -> norm v <> 0.
 Proof. intros H E. apply H. apply norm_eq_0. exact E. Qed.
@@ -52,10 +63,6 @@ Proof.
 Qed.
 
 (** ** the tactic *)
-Ltac unfold_model :=
-  cbv beta iota zeta delta [arc_from_theta theta_pm theta_rm theta_len theta_chord arc_mid secant_mid vunit
-    arc_from_origin arc_from_origin_adj arc_from_origin_noadj origin_new_centre origin_flat_radius origin_mean_radius
-    arc_length_3point a3_len_at a3_x_at a3_flipq_at a3_centre a3_denom].
 Ltac unfold_model_all :=
   cbv beta iota zeta delta [arc_from_theta theta_pm theta_rm theta_len theta_chord arc_mid secant_mid vunit
     arc_from_origin arc_from_origin_adj arc_from_origin_noadj origin_new_centre origin_flat_radius origin_mean_radius
@@ -85,11 +92,20 @@ Ltac gen_common :=
       end
   end.
 Ltac poly := first [ ring | (field; nz) ].
+(** the values of the non-polynomial functions are opaque to [ring] / [field] anyway: they become variables (in the
+    hypotheses too), so that their arguments are not expanded into coordinates *)
+Ltac gen_atom f :=
+  match goal with |- context [f ?x] => let a := fresh "atom" in set (a := f x) in *; clearbody a end.
+Ltac gen_atom2 f :=
+  match goal with |- context [f ?x ?y] => let a := fresh "atom" in set (a := f x y) in *; clearbody a end.
+Ltac gen_atoms :=
+  repeat first [ gen_atom norm | gen_atom sqrt | gen_atom acos | gen_atom tan | gen_atom cos | gen_atom sin | gen_atom Rabs
+               | gen_atom2 Rmax | gen_atom2 Rmin ].
 Ltac whole :=
-  first [ timeout 3 ring
-        | timeout 5 (vcoord; poly)
-        | timeout 5 (apply vec_eq; vcoord; poly)
-        | timeout 10 (gen_common; first [ vcoord; poly | apply vec_eq; vcoord; poly ]) ].
+  first [ timeout 2 ring
+        | timeout 4 (gen_atoms; vcoord; poly)
+        | timeout 4 (gen_atoms; apply vec_eq; vcoord; poly)
+        | timeout 8 (gen_atoms; gen_common; first [ vcoord; poly | apply vec_eq; vcoord; poly ]) ].
 Ltac peel n :=
   first [ reflexivity
         | lazymatch n with S ?k => solve [ progress f_equal; peel k ] end
@@ -131,9 +147,38 @@ Ltac unify2 f :=
           end
       end
   end.
+(** |v| = |-v|, |x| = |-x|: [norm (a - b)] and [norm (b - a)] are the same number *)
+Ltac unify_norm_opp :=
+  match goal with
+  | |- ?l = ?r =>
+      match l with
+      | context [norm ?x] =>
+          match r with
+          | context [norm ?y] =>
+              lazymatch y with x => fail | _ => idtac end; untried (norm (vopp x)) (norm y);
+              first [ absent (norm x) r | absent (norm y) l ];
+              first [ replace (norm x) with (norm y) by (rewrite <- (norm_vopp y); f_equal; timeout 6 veq)
+                    | pose proof (I : tried (norm (vopp x)) (norm y)) ]
+          end
+      end
+  end.
+Ltac unify_abs_opp :=
+  match goal with
+  | |- ?l = ?r =>
+      match l with
+      | context [Rabs ?x] =>
+          match r with
+          | context [Rabs ?y] =>
+              lazymatch y with x => fail | _ => idtac end; untried (Rabs (- x)) (Rabs y);
+              first [ absent (Rabs x) r | absent (Rabs y) l ];
+              first [ replace (Rabs x) with (Rabs y) by (rewrite <- (Rabs_Ropp y); f_equal; timeout 6 req)
+                    | pose proof (I : tried (Rabs (- x)) (Rabs y)) ]
+          end
+      end
+  end.
 Ltac unify_atoms :=
   repeat first [ unify1 sqrt req | unify1 Rabs req | unify2 Rmax | unify2 Rmin | unify1 tan req | unify1 cos req | unify1 sin req
-               | unify1 acos req | unify1 norm veq ];
+               | unify1 acos req | unify1 norm veq | unify_abs_opp | unify_norm_opp ];
   repeat match goal with H : tried _ _ |- _ => clear H end.
 
 Ltac head_scrut t :=
@@ -163,7 +208,9 @@ Ltac by_norm0 H E :=
     lazymatch type of H with ?w <> vzero => apply H; first [ exact (norm_eq_0 v E) | replace w with v by veq; exact (norm_eq_0 v E) ] end end.
 (** a hypothesis next to the newest ones that speaks about the same quantities written differently
     ([Rabs (a * b - c)] and [Rabs (b * a - c)], ...): its sides are brought to the form of the other's, then [lra] *)
-Ltac whole_cheap := first [ timeout 1 ring | timeout 2 (vcoord; poly) | timeout 2 (apply vec_eq; vcoord; poly) ].
+Ltac whole_cheap :=
+  first [ timeout 1 ring | timeout 2 (gen_atoms; vcoord; poly) | timeout 2 (gen_atoms; apply vec_eq; vcoord; poly)
+        | timeout 3 (gen_atoms; gen_common; vcoord; poly) ].
 Ltac peelc n :=
   first [ reflexivity | lazymatch n with S ?k => solve [ progress f_equal; peelc k ] end | whole_cheap ].
 Ltac ceq := peelc 40%nat.
@@ -175,10 +222,13 @@ Ltac rel_sides P k :=
   | ?a = ?b => let T := type of a in lazymatch T with R => k a b end
   | ?a <> ?b => let T := type of a in lazymatch T with R => k a b end
   end.
+Ltac head_of t := lazymatch t with ?f _ => head_of f | _ => t end.
 Ltac try_side H2 t2 t1 :=
   lazymatch t2 with
   | t1 => idtac
-  | _ => first [ is_numeral t2 | is_numeral t1 | replace t2 with t1 in H2 by ceq | idtac ]
+  | _ => first [ is_numeral t2 | is_numeral t1
+               | (let h1 := head_of t1 in let h2 := head_of t2 in constr_eq h1 h2); replace t2 with t1 in H2 by ceq
+               | idtac ]
   end.
 Ltac align H1 H2 :=
   let P1 := type of H1 in
@@ -196,7 +246,6 @@ Ltac contra :=
       let E1 := fresh "E" in
       destruct (Rmult_integral _ _ E) as [E1|E1]; match goal with H : ?u <> vzero |- _ => solve [by_norm0 H E1] end end
   | match goal with H1 : _, H2 : _ |- _ => solve [same_by ceq H1 H2] end
-  | match goal with H1 : _, H2 : _ |- _ => solve [same_by req H1 H2] end
   | match goal with H2 : _ |- _ =>
       match goal with H1 : _ |- _ =>
         lazymatch H1 with H2 => fail | _ => idtac end; align H1 H2; solve [ lra | contradiction ]
